@@ -19,7 +19,7 @@ REQUIRED_CLASSES = ["ok"]
 RULE = ("(a) every label assignment over a 2-letter (quick) / 3-letter "
         "(thorough) alphabet incl. 2^32-1, 2^53+1, 2^64-1 for every (Z,Y,X) "
         "with edges in {1,2,3,4,8} and <= 8 voxels, as 1- and 2-channel "
-        "chunks, x 12 (quick) / 27 (thorough) block sizes (cubic, non-cubic, "
+        "chunks, x 12 (quick) / 20 (thorough) block sizes (cubic, non-cubic, "
         "larger than the chunk, non-dividing) x uint32/uint64; (b) bit-width "
         "ladder: blocks with exactly k distinct labels, k in {1,2,3,4,5,16,"
         "17,256,257,65536,65537}, cubic and non-cubic, 1 and 3 channels, "
@@ -42,8 +42,7 @@ EDGES = (1, 2, 3, 4, 8)
 BLOCKS_Q = [(8, 8, 8), (1, 1, 1), (2, 2, 2), (3, 3, 3), (4, 4, 4), (2, 2, 1),
             (1, 2, 2), (4, 2, 4), (1, 8, 1), (2, 3, 2), (2, 1, 4), (8, 4, 2)]
 BLOCKS_T = BLOCKS_Q + [(1, 1, 2), (2, 1, 1), (1, 2, 1), (3, 1, 1), (1, 1, 3),
-                       (4, 4, 1), (1, 4, 4), (8, 8, 1), (1, 1, 8), (3, 2, 3),
-                       (2, 4, 8), (8, 2, 1), (4, 8, 8), (3, 3, 1), (1, 3, 4)]
+                       (4, 4, 1), (8, 8, 1), (2, 4, 8)]
 
 
 def shapes():
